@@ -82,16 +82,25 @@ pub fn install_hook() {
         // innermost allsorts frame so that the site identifies the library code at fault.
         let mut file = file;
         let mut line = line;
-        if !file.contains("/repo/src/") && !file.starts_with("src/") {
+        // (the callback budget is raised by the harness' own `tick`: same treatment)
+        if (!file.contains("/repo/src/") && !file.starts_with("src/")) || msg.starts_with("VERIF-STEP-BUDGET exceeded after") && file.ends_with("util.rs") {
             let bt = std::backtrace::Backtrace::force_capture().to_string();
+            if std::env::var_os("VERIF_DEBUG_BT").is_some() {
+                eprintln!("{}", bt);
+            }
             let mut frame_fn: Option<String> = None;
+            let mut located = false;
             let mut lines = bt.lines().peekable();
+            // innermost allsorts frame that carries a source location (an inlined frame may
+            // come without one: take the next one out)
             while let Some(l) = lines.next() {
                 let t = l.trim();
                 if let Some(pos) = t.find(": ") {
                     let name = &t[pos + 2..];
                     if name.starts_with("allsorts::") || name.starts_with("<allsorts::") {
-                        frame_fn = Some(name.to_string());
+                        if frame_fn.is_none() {
+                            frame_fn = Some(name.to_string());
+                        }
                         if let Some(next) = lines.peek() {
                             let n = next.trim();
                             if let Some(rest) = n.strip_prefix("at ") {
@@ -104,15 +113,16 @@ pub fn install_hook() {
                                     if f.contains("/repo/src/") {
                                         file = f.to_string();
                                         line = ln;
+                                        located = true;
                                     }
                                 }
+                                break;
                             }
                         }
-                        break;
                     }
                 }
             }
-            if !file.contains("/repo/src/") {
+            if !located {
                 if let Some(f) = frame_fn {
                     file = format!("{}@{}", file, f);
                 }
